@@ -152,6 +152,8 @@ def run(repo, res, tier):
     c03.minonce(repo, res)
     sk_bash.fb_rule(repo, res, tier)
     sk_bash.scope_rule(repo, res, tier)
+    # inside a word the same `||` order holds only if the shared matcher walks its own levels from 0 on its own tables (S7, S8; shared with C01 / C12)
+    sk_bash.sub_rule(repo, res, tier)
     from . import common
     # `||` behaves like `|` when matching: every pass over the expression treats a Fallback node exactly as it treats an
     # Alternative (both children lists traversed); the one tabled difference is the level assignment
@@ -172,6 +174,6 @@ def run(repo, res, tier):
     from . import c04
     c04.isocov(repo, res)
     from vlib import rules_declguard as DG
-    DG.declguard_rule(repo, res, modules=("bash",))
+    DG.declguard_rule(repo, res, modules=("bash", "zsh", "fish"))
     res.floor("EQFIELDS", res.count("EQFIELDS"), 6)
     res.floor("COARSE", res.count("COARSE"), 3)
